@@ -51,7 +51,14 @@ Definition guard_map : list (N * N) :=
     (* /repo/remote_list.go, RemoteList: "Every interaction with internals requires a lock!" *)
     (fld_RemoteList_vpnAddrs, cls_RemoteList_RWMutex); (fld_RemoteList_addrs, cls_RemoteList_RWMutex);
     (fld_RemoteList_relays, cls_RemoteList_RWMutex); (fld_RemoteList_cache, cls_RemoteList_RWMutex);
-    (fld_RemoteList_badRemotes, cls_RemoteList_RWMutex) ].
+    (fld_RemoteList_badRemotes, cls_RemoteList_RWMutex);
+    (* /repo/inside.go, getOrHandshakeConsiderRouting (the repair of finding F31): "This has to go through the handshake
+       manager again, the pending handshake can only be touched under its lock and may have completed or been replaced
+       in the meantime."  Every write to a pending handshake's packet cache - cachePacket through the cacheCb callbacks
+       that StartHandshake runs under hm.Lock(), and the hand-over to the replacement handshake in continueHandshake's
+       wrong-responder path, also a StartHandshake callback - holds the HandshakeManager lock in write mode.  (The
+       flush after completion only reads the slice; reads are not judged.) *)
+    (fld_HandshakeHostInfo_packetStore, cls_HandshakeManager_RWMutex) ].
 
 Definition guard_of (f : N) : option N :=
   match find (fun p => fst p =? f) guard_map with Some p => Some (snd p) | None => None end.
